@@ -262,9 +262,10 @@ impl<'a> SGen<'a> {
 
     /// opaque octets: `min` is what validity demands, `max` the largest the field can hold
     fn blob(&mut self, min: usize, max: usize) -> Vec<u8> {
-        let n = match self.mode {
-            Mode::Empty if self.boundary() => min,
-            Mode::Max if self.boundary() => max.min(if self.rng.chance(1, 8) { 20000 } else { 600 }),
+        let (mode, bd) = (self.mode, self.boundary());
+        let n = match mode {
+            Mode::Empty if bd => min,
+            Mode::Max if bd => max.min(if self.rng.chance(1, 8) { 20000 } else { 600 }),
             _ => match self.rng.below(12) {
                 0 => min,
                 1 => self.rng.urange(min, max.min(700)),
@@ -275,9 +276,10 @@ impl<'a> SGen<'a> {
     }
 
     fn charstr(&mut self) -> Vec<u8> {
-        let n = match self.mode {
-            Mode::Empty if self.boundary() => 0,
-            Mode::Max if self.boundary() => 255,
+        let (mode, bd) = (self.mode, self.boundary());
+        let n = match mode {
+            Mode::Empty if bd => 0,
+            Mode::Max if bd => 255,
             _ => match self.rng.below(14) {
                 0 => 0,
                 1 => 255,
@@ -617,7 +619,10 @@ impl<'a> SGen<'a> {
         let mac = match self.rng.below(6) {
             0 => vec![],
             1 => self.blob(0, 4000),
-            _ => self.rng.bytes(*self.rng.pick(&[10usize, 16, 20, 28, 32, 48, 64])),
+            _ => {
+                let n = *self.rng.pick(&[10usize, 16, 20, 28, 32, 48, 64]);
+                self.rng.bytes(n)
+            }
         };
         let time = match self.rng.below(5) {
             0 => 0,
@@ -701,7 +706,8 @@ impl<'a> SGen<'a> {
             "tsig": if with_tsig { self.tsig(index) } else { Value::Null },
         });
         if self.mode == Mode::Msg65535 && !update {
-            self.fill_to(&mut spec, if self.rng.chance(1, 4) { 65534 } else { 65535 });
+            let target = if self.rng.chance(1, 4) { 65534 } else { 65535 };
+            self.fill_to(&mut spec, target);
         }
         spec
     }
